@@ -304,6 +304,7 @@ def verify_many(spec: Spec, keys, axioms, timeout_ms=10000, procs=16) -> list:
         pool = multiprocessing.get_context('fork').Pool(procs)
         try:
             pending = [(k, pool.apply_async(_worker_path, ((k, []),))) for k in todo]
+            last_progress = time.time()
             submitted = {k: 1 for k in todo}
             notes = {k: set() for k in todo}
             dropped = {k: set() for k in todo}
@@ -311,7 +312,12 @@ def verify_many(spec: Spec, keys, axioms, timeout_ms=10000, procs=16) -> list:
                 ready = [(k, h) for (k, h) in pending if h.ready()]
                 if not ready:
                     pending[0][1].wait(0.02)
+                    if time.time() - last_progress > 900:
+                        for k, _h in pending:
+                            results[k].refused = results[k].refused or 'worker lost or stuck for 900 s (path task never returned)'
+                        break
                     continue
+                last_progress = time.time()
                 rs = set(id(h) for _, h in ready)
                 pending = [(k, h) for (k, h) in pending if id(h) not in rs]
                 for key, h in ready:
